@@ -663,9 +663,22 @@ def threading(eng: Engine, ctx: Ctx, rid: str, model: DecoderModel):
                     return ("ite", t[1], a, b) if a is not None and b is not None else None
                 return None
 
+            def ret_idx(t):
+                """index component of a returned value (same shapes as ret_off)."""
+                if t[0] == "tuple" and len(t[1]) == 2:
+                    return t[1][1]
+                if t in results and results[t] != t:
+                    return ("proj", t, 1)
+                if t[0] == "ite":
+                    a, b = ret_idx(t[2]), ret_idx(t[3])
+                    return ("ite", t[1], a, b) if a is not None and b is not None else None
+                return None
+
             for t in ret_terms:
                 ro = ret_off(t)
                 ctx.check(ro is not None and valid(ro), rid, q, "returned offset", expected="(current offset, index)", found=show(t)[:100], **loc)
+                ri = ret_idx(t)
+                ctx.check(ri is not None and valid_idx(ri), rid, q, "returned index stack", expected="the caller's index stack (parameter / a nested call's result), never a new list", found=show(ri)[:80] if ri is not None else show(t)[:80], **loc)
         else:
             # fresh index stack
             lists = [v for info in se.loop_info.values() for k, v in (info.get("pre") or {}).items() if v[0] == "list" and not v[1]]
